@@ -14,9 +14,9 @@ CLAIMED = {
  "C04": ("fault_enumeration", DST + "crash image at every file-mutation boundary of a recorded run + torn variants of the last write, booted by the real recovery code",
          "For each seeded recorded run every boundary after a log/index/consumer-offset/state-log/segment-file mutation (and torn lengths of the last write) is rebuilt as a directory and booted; recovery oracle: start-up succeeds, no panic, gap-free prefix of accepted messages, completely written+indexed batches survive (wait mode), post-recovery sends continue, second restart agrees, consumer offsets are stored values. Enumeration within a run, sampling over runs.", "process-death model (completed writes survive); deferred tokio write completion not modelled (inline writes)", "4.C04"),
  "C05": ("exploration", DST + "catalogue command histories with restarts; dump before == after",
-         "Administrative histories (auto/explicit ids, by number/name, delete+re-create, users, permissions, tokens, groups) through the binary protocol with clean restarts; catalogue dump, messages and directory tree compared across each restart.", "binary transport only (HTTP handlers share System and the state journal; not driven)", "4.C05"),
+         "Administrative histories (auto/explicit ids, by number/name, delete+re-create, users, permissions, tokens, groups) through the binary protocol with clean restarts; catalogue dump, messages and directory tree compared across each restart.", "binary protocol for every connection; in 30% of the runs half of the administrator's catalogue commands go through the real SDK HttpClient and the real axum router in-process (DESIGN 9.2)", "4.C05"),
  "C06": ("exploration", DST + "sequential-map refinement after every valid/invalid catalogue command",
-         "Every response of every catalogue command is predicted by a sequential map model; failed commands change nothing; deletes cascade; no handler panic; periodic full audits of every listing and entity by id and by name.", "binary transport only", "4.C06"),
+         "Every response of every catalogue command is predicted by a sequential map model; failed commands change nothing; deletes cascade; no handler panic; periodic full audits of every listing and entity by id and by name.", "binary protocol for every connection; HTTP arm as for C05 (root only)", "4.C06"),
  "C07": ("exploration", DST + "consumer-offset histories over consumer x group x partition identities vs. map model",
          "store/get/delete/poll-next/auto-commit/purge/group-deletion/restart with identities chosen so that a consumer and a group share a numeric id; crash durability of offset files is part of C04.", "named consumers resolved with the same hash the server uses", "4.C07"),
  "C08": ("exploration", DST + "join/leave/disconnect/heartbeat-expiry/partition add+remove with several connections; assignment invariants and group-wide exactly-once",
@@ -24,13 +24,13 @@ CLAIMED = {
  "C09": ("exploration", DST + "sessions x users x swarm-generated permission records, updates interleaved with requests, unauthenticated raw requests, rule-level probes on the real Permissioner",
          "No request is served without authentication or without a rule of the documented hierarchy granting it (permissive reading as upper bound), root is protected, permission changes are in force for the next request (revocation arm: demotions followed at once by requests on the user's open connections), rule evaluation never panics and is monotone (checked on the real Permissioner for record/superset pairs).", "the converse (every documented grant is honoured) is counted, not demanded: the statement is one-directional; record space sampled", "4.C09"),
  "C10": ("exploration", DST + "credential life-cycle histories with clock jumps and restarts; byte scan of every file for secrets",
-         "Login outcomes (password, personal access tokens: right/wrong/stale/expired/other user's/deleted) follow a validity model before and after restarts; after every audit all files are scanned for every password and raw token (plain, base64, UTF-16).", "JWT/HTTP not driven", "4.C10"),
+         "Login outcomes (password, personal access tokens: right/wrong/stale/expired/other user's/deleted) follow a validity model before and after restarts; after every audit all files are scanned for every password and raw token (plain, base64, UTF-16).", "HTTP arm (30% of runs): root logs in over HTTP with its current password; tokens never issued, tampered or revoked by logout must be refused; JWT expiry/refresh not simulated", "4.C10"),
  "C11": ("exploration", DST + "concurrent journalling under I/O-granular seeded schedules with injected append failures, then every byte flip / truncation / entry permutation of the harvested journal through the real loader",
          "(a) 2-4 clients issue journalled commands concurrently (purge under the shared lock), with and without injected open/write/fsync failures on the state log; the journal must load with consecutive indices and the server must start from it. (b) exhaustive single-byte mutations, truncation lengths and entry permutations of small journals (sampled for large ones): the loader reports them or returns a prefix only for the loss of a whole suffix; never a panic, never another history.", "length fields are only mutated in their low three bytes (the loader allocates what they announce)", "4.C11"),
  "C12": ("exploration", DST + "N producers + M pollers + flusher + saver + evictor on one partition under seeded schedules; history predicates",
          "Batch-contiguous interleaving, per-producer order, nothing lost/twice, every poll a contiguous run equal to the final log, no partial batch visible, acknowledged-under-wait implies visible (event sequence numbers). The no-wait visibility hole is a listed known finding.", "file writes complete inline (tokio's deferred File write is not modelled)", "4.C12"),
  "C13": ("exploration", DST + "every exchange real SDK encoder -> simulated byte stream -> real server decoder/handler -> real SDK decoder compared with the model under a value swarm; malformed frames from a raw connection",
-         "All model-equality oracles are wire-agreement oracles under the C13 swarm (boundary name lengths, empty/absent optionals, header kinds, fragmenting pipe capacities); garbage/truncated/mutated frames and mid-frame closes on a second connection must leave the catalogue, logs and other connections untouched (judged by the audits that follow).", "the context-free codec round trip over all values is sampled, not enumerated (DESIGN 6); HTTP/JSON not driven", "4.C13"),
+         "All model-equality oracles are wire-agreement oracles under the C13 swarm (boundary name lengths, empty/absent optionals, header kinds, fragmenting pipe capacities); garbage/truncated/mutated frames and mid-frame closes on a second connection must leave the catalogue, logs and other connections untouched (judged by the audits that follow).", "the context-free codec round trip over all values is sampled, not enumerated (DESIGN 6); HTTP/JSON driven for the administrator's catalogue commands in 30% of the runs", "4.C13"),
  "C14": ("exploration", DST + "expiring topics, clock jumps on both sides of the expiry, maintenance passes, expiry updates, restarts",
          "After each real maintenance pass the vanished offsets must be whole closed segments whose newest message was expired at pass time (or legal size clean-up); open segments and never-expiring topics lose nothing; current offset unchanged; traffic and restarts continue against the model.", "segment boundaries before a pass are read through the introspection hook H9", "4.C14"),
  "C15": ("exploration", DST + "size-limited topics, delete-oldest on/off, limit updates, maintenance passes",
